@@ -358,7 +358,9 @@ def _apply_macros(body_lines, macros) -> List[str]:
     if len(body_lines) == 0:
         return []
     body = "\n".join(body_lines)
-    for macro_key, macro_value in macros:
+    # Longest keys first, such that a key which is a prefix of another one
+    # (e.g. `cnt` and `cnt2`) does not replace the start of the longer one
+    for macro_key, macro_value in sorted(macros, key=lambda m: len(m[0]), reverse=True):
         macro_value = macro_value.strip(Symbols.PREAMBLE_DEFINE_BRACKETS)
         body = body.replace(f"{Symbols.MACRO_START}{macro_key}", macro_value)
     return list(body.split("\n"))
